@@ -69,6 +69,8 @@ pub struct Original {
     pub sources: Vec<String>,
     /// views of every token legitimately issued in this case (history of the plan and of the donor)
     pub legit_views: Vec<TokenView>,
+    /// C01 compares blocks and proof; C08 ("no block added, removed or altered") only the blocks
+    pub compare_proof: bool,
 }
 
 /// check one variant on all entry points
@@ -122,6 +124,10 @@ pub fn check_variant(kind: &str, idx: usize, variant: &[u8], o: &Original, rep: 
                     .map_err(|e| v(format!("accepted:{kind}"), format!("{entry}: accepted object does not re-decode: {e}")))?;
                 let accv = view_unverified(&accw)
                     .map_err(|e| v(format!("accepted:{kind}"), format!("{entry}: accepted object has no view: {e}")))?;
+                if !o.compare_proof && accv.blocks == o.view.blocks {
+                    // same signed blocks, only the final proof was re-encoded
+                    continue;
+                }
                 if accv != o.view && o.legit_views.contains(&accv) {
                     // the variant is (a re-encoding of) another legitimately issued token of the
                     // same history: the parent token, or a further attenuation made by the holder
@@ -191,6 +197,7 @@ pub fn prepare(plan: &TokenPlan) -> Result<Original, Violation> {
         ext_keys: fin.external_public_keys(),
         sources: (0..n).map(|i| fin.print_block_source(i).unwrap_or_default()).collect(),
         legit_views,
+        compare_proof: true,
     })
 }
 
@@ -203,8 +210,13 @@ fn tol(ctx: &Ctx, r: Result<(), Violation>) -> Result<(), Violation> {
 }
 
 pub fn test_case(ctx: &Ctx, case: &Case, rep: &mut Report) -> Result<(), Violation> {
+    test_case_mode(ctx, case, rep, true)
+}
+
+pub fn test_case_mode(ctx: &Ctx, case: &Case, rep: &mut Report, compare_proof: bool) -> Result<(), Violation> {
     let plan = &case.plan;
     let mut o = prepare(plan)?;
+    o.compare_proof = compare_proof;
     let (donor_hist, donor_tok) = match guard(|| build_history(&case.donor)) {
         Ok(Ok(x)) => x,
         _ => return Err(v("api-build-error".into(), "donor".into())),
